@@ -569,5 +569,110 @@ example :
     (by norm_num)
   exact ⟨o, oB, ho, hoB, by rw [hg, hgB 1 (by norm_num)]; simp⟩
 
+/-! ## 9. the public one-step samplers and their `out=` buffer (extension round 2) -/
+
+/-- SPECIFICATION of what a caller sees after a one-step sampler drew `t`: with `out=` given the returned tensor IS the `out`
+object and holds the 0/1 draw; without, a new tensor (not the one that held the probabilities) holds it. -/
+def stepOutcome {m : ℕ} (fresh : ℕ) (out : Option (Buf (Fin m → ℝ))) (t : Fin m → Bool) : StepResult (Fin m → ℝ) :=
+  match out with
+  | some o => ⟨⟨o.id, o.native, bvec t⟩, some ⟨o.id, o.native, bvec t⟩⟩
+  | none => ⟨⟨fresh + 1, true, bvec t⟩, none⟩
+
+theorem expect_map' {β γ : Type} (m : Prog ℝ β) (f : β → γ) (g : γ → ℝ) : (m.map f).expect g = m.expect (fun b => g (f b)) := by
+  simp only [Prog.map, expect_bind, Prog.expect]
+
+theorem sampleCall_expect {m : ℕ} (probs : Fin m → ℝ) (fresh : ℕ) (out : Option (Buf (Fin m → ℝ)))
+    (g : StepResult (Fin m → ℝ) → ℝ) :
+    (sampleCall probs fresh out).expect g = ∑ t, bernVec probs t * g (stepOutcome fresh out t) := by
+  cases out <;> simp only [sampleCall, expect_map', expect_flipVec, bernVec, stepOutcome]
+
+theorem sum_bernVec {m : ℕ} (p : Fin m → ℝ) : ∑ t, bernVec p t = 1 := by
+  simp only [bernVec, ← law_flipVec, sum_law]
+
+/-- **C05_sample_out_identity.** `sample_…(x, out=out)` for every execution: the returned tensor holds a 0/1 vector `t` that is
+a draw of exactly the probabilities `probs` presented to `torch.bernoulli` (same probabilities, same draws as the bare
+`flipVec`); when `out` was given the returned tensor IS that object (same identity, dtype class) and the caller's `out` holds
+the DRAW afterwards (not the probabilities that were written into it first); when no `out` was given nothing of the caller's
+is touched and the result is a new tensor. -/
+theorem C05_sample_out_identity {m : ℕ} (probs : Fin m → ℝ) (fresh : ℕ) (out : Option (Buf (Fin m → ℝ))) :
+    ∀ x ∈ (sampleCall probs fresh out).paths,
+      (∃ t, (t, x.2.1, x.2.2) ∈ (flipVec m probs).paths ∧ x.1.result.data = bvec t
+          ∧ ∀ j, x.1.result.data j = 0 ∨ x.1.result.data j = 1)
+      ∧ (∀ o, out = some o → x.1.result.id = o.id ∧ x.1.result.native = o.native ∧ x.1.out = some x.1.result)
+      ∧ (out = none → x.1.out = none ∧ x.1.result.id = fresh + 1) := by
+  intro x hx
+  have h01 : ∀ (t : Fin m → Bool) j, (bvec t : Fin m → ℝ) j = 0 ∨ (bvec t : Fin m → ℝ) j = 1 := by
+    intro t j; cases ht : t j <;> simp [bvec, bit, ht]
+  cases out with
+  | none =>
+    simp only [sampleCall, paths_map, List.mem_map] at hx
+    obtain ⟨y, hy, rfl⟩ := hx
+    exact ⟨⟨y.1, hy, rfl, h01 y.1⟩, (fun o ho => by cases ho), fun _ => ⟨rfl, rfl⟩⟩
+  | some o =>
+    simp only [sampleCall, paths_map, List.mem_map] at hx
+    obtain ⟨y, hy, rfl⟩ := hx
+    exact ⟨⟨y.1, hy, rfl, h01 y.1⟩, (fun o' ho => by cases ho; exact ⟨rfl, rfl, rfl⟩), fun h => by cases h⟩
+
+/-- **C05_sample_step_law.** The law of each public one-step sampler, with or without `out=`, started from 0/1 states, is the
+product-Bernoulli law of the EXACT conditional of the joint Boltzmann weight, and the caller-visible outcome of the draw `t` is
+`stepOutcome` (for every test function `g` of the outcome):
+`π(v) · E[g] = Σ_h J(v,h) g(h)` for `sample_h_given_v`, `(Σ_v' J(v',h)) · E[g] = Σ_v J(v,h) g(v)` for `sample_v_given_h`, and for
+the purification RBM `π(v) · E[g] = Σ_h (Σ_a J(v,h,a)) g(h)`, `π(v) · E[g] = Σ_a (Σ_h J(v,h,a)) g(a)`,
+`(Σ_v' J(v',h,a)) · E[g] = Σ_v J(v,h,a) g(v)`. -/
+theorem C05_sample_step_law (r : RBM ℝ n h) (q : PRBM ℝ n h a) (v : Fin n → Bool) (hid : Fin h → Bool)
+    (aux : Fin a → Bool) (fresh : ℕ) :
+    (∀ out g, rbmPi r 1 v * (r.sampleH (bvec v) fresh out).expect g
+        = ∑ t, rbmJoint r v t * g (stepOutcome fresh out t))
+    ∧ (∀ out g, (∑ v', rbmJoint r v' hid) * (r.sampleV (bvec hid) fresh out).expect g
+        = ∑ t, rbmJoint r t hid * g (stepOutcome fresh out t))
+    ∧ (∀ out g, prbmPi q 1 v * (q.sampleH (bvec v) fresh out).expect g
+        = ∑ t, (∑ aux', prbmJoint q v t aux') * g (stepOutcome fresh out t))
+    ∧ (∀ out g, prbmPi q 1 v * (q.sampleA (bvec v) fresh out).expect g
+        = ∑ t, (∑ hid', prbmJoint q v hid' t) * g (stepOutcome fresh out t))
+    ∧ (∀ out g, (∑ v', prbmJoint q v' hid aux) * (q.sampleV (bvec hid) (bvec aux) fresh out).expect g
+        = ∑ t, prbmJoint q t hid aux * g (stepOutcome fresh out t)) := by
+  refine ⟨?_, ?_, ?_, ?_, ?_⟩ <;> intro out g
+  · simp only [RBM.sampleH, sampleCall_expect, C05_cond_h, Finset.mul_sum, mul_assoc]
+  · rw [RBM.sampleV, sampleCall_expect, Finset.mul_sum]
+    refine Finset.sum_congr rfl fun t _ => ?_
+    rw [C05_cond_v r t hid, mul_assoc]
+  · rw [PRBM.sampleH, sampleCall_expect, Finset.mul_sum]
+    refine Finset.sum_congr rfl fun t _ => ?_
+    simp only [C05_cond_ha, ← Finset.mul_sum, sum_bernVec, mul_one, mul_assoc]
+  · rw [PRBM.sampleA, sampleCall_expect, Finset.mul_sum]
+    refine Finset.sum_congr rfl fun t _ => ?_
+    simp only [C05_cond_ha, ← Finset.mul_sum, ← Finset.sum_mul, sum_bernVec, one_mul, mul_assoc]
+  · rw [PRBM.sampleV, sampleCall_expect, Finset.mul_sum]
+    refine Finset.sum_congr rfl fun t _ => ?_
+    rw [C05_cond_v_purif q t hid aux, mul_assoc]
+
+/-- **C05_gibbs_step_buffers.** The loop body of `gibbs_steps` written with the public samplers on buffer OBJECTS (`out=h`,
+[`out=a`,] `out=v`, return values discarded, each call reading the CONTENTS its predecessors left in the buffers) is the
+verified kernel `gibbsStep`: the buffer objects keep their identities and the visible buffer ends up holding the 0/1 encoding of
+the kernel's next state. (A sampler that leaves the probabilities in `out` breaks this: the next call would be fed probabilities.) -/
+theorem C05_gibbs_step_buffers (r : RBM ℝ n h) (q : PRBM ℝ n h a) (fresh : ℕ) (hb : Buf (Fin h → ℝ))
+    (ab : Buf (Fin a → ℝ)) (vid : ℕ) (vnat : Bool) (v : Fin n → Bool) :
+    (r.gibbsStepBuf fresh hb ⟨vid, vnat, bvec v⟩).map (fun s => (s.1.id, s.2.id, s.2.data))
+        = (r.gibbsStep v).map (fun w => (hb.id, vid, bvec w))
+    ∧ (q.gibbsStepBuf fresh hb ab ⟨vid, vnat, bvec v⟩).map (fun s => (s.1.id, s.2.1.id, s.2.2.id, s.2.2.data))
+        = (q.gibbsStep v).map (fun w => (hb.id, ab.id, vid, bvec w)) := by
+  constructor
+  · simp only [RBM.gibbsStepBuf, RBM.sampleH, RBM.sampleV, sampleCall, RBM.gibbsStep, Prog.map, bind_assoc, Prog.bind,
+      Option.getD_some]
+  · simp only [PRBM.gibbsStepBuf, PRBM.sampleH, PRBM.sampleA, PRBM.sampleV, sampleCall, PRBM.gibbsStep, Prog.map, bind_assoc,
+      Prog.bind, Option.getD_some]
+
+/-- the hypotheses of `C05_sample_out_identity` / `C05_sample_step_law` are satisfiable non-trivially: a 2-unit sampler with an
+`out` buffer that initially holds garbage; the execution drawing (1, 0) returns object 7 holding `[1, 0]`. -/
+example : (⟨⟨7, true, bvec (fun i : Fin 2 => i = 0)⟩, some ⟨7, true, bvec (fun i : Fin 2 => i = 0)⟩⟩, [(0.3 : ℝ), 0.9], [true, false])
+    ∈ ((sampleCall (fun i : Fin 2 => if i = 0 then (0.3 : ℝ) else 0.9) 100 (some ⟨7, true, fun _ => 42⟩)).paths.map
+        (fun x => (x.1, x.2.1, x.2.2))) := by
+  simp only [sampleCall, paths_map, Prog.flipVec, Prog.paths, Prog.bind, List.map_map, List.map_cons, List.map_nil, List.cons_append, List.nil_append, List.mem_cons]
+  right; left
+  refine Prod.ext ?_ rfl
+  have e : (fun i : Fin 2 => decide (i = 0)) = (fun i => Fin.cases true (fun i => Fin.cases false (fun i => i.elim0) i) i) := by
+    funext i; fin_cases i <;> rfl
+  simp only [Function.comp, e]
+
 end C05
 end QV.Props
